@@ -78,7 +78,10 @@ def check(repo, tier):
                 ok = l2rules.invariant_obligation(run, 'C08', 'D4', repo, sc, t, entry, scen, 'returned eigentensor')
                 if ok:
                     l2rules.layout_obligation(run, 'C08', 'D1', repo, sc, t, entry, scen)
-                    notro = [k for k in range(1, d) if l2rules.orth_of(t._attrs['cores'][k]) != 'RO']
+                    iso = {k: l2rules.core_iso(t._attrs['cores'][k], 'RO') for k in range(1, d)}
+                    notro = [k for k, v_ in iso.items() if v_ is False]
+                    if not notro and any(v_ is None for v_ in iso.values()):
+                        raise AnalysisError(f'{scen}: right-orthonormality of cores {[k for k, v_ in iso.items() if v_ is None]} of the returned eigentensor can neither be proved nor refuted')
                     run.oblige('D4', (entry, scen, 'frame'), not notro)
                     if notro:
                         fn = repo.fn(entry)
